@@ -14,9 +14,9 @@ namespace GB.C17
 variable {E : Type*} [NormedAddCommGroup E] [InnerProductSpace ℝ E] {n : ℕ}
 
 theorem overlap_type_psd (f : Fin n → E) (x : Fin n → ℝ) :
-    0 ≤ ∑ a, ∑ b, x a * gram f a b * x b := gram_psd f x
+    0 ≤ ∑ a, ∑ b, x a * gramMat f a b * x b := gram_psd f x
 
-theorem schwarz (f : Fin n → E) (a b : Fin n) : gram f a b ^ 2 ≤ gram f a a * gram f b b :=
+theorem schwarz (f : Fin n → E) (a b : Fin n) : gramMat f a b ^ 2 ≤ gramMat f a a * gramMat f b b :=
   gram_sq_le f a b
 
 end GB.C17
